@@ -10,6 +10,8 @@ and after every step, by the real code and by the Lean driver `rec seq …`):
     direct    DDeviceChannelData(...) / DDeviceData(...)
     devchan   DeviceChannel(...).data
     device    Device(n, flags, rxpadding, [DeviceChannel…]).channel_get(j).data  /  Device(...).data
+    device.<f> (channel records) the same with device flags <f> instead of 3: a device WITHOUT divider / ACK support (flags 0, 2, 1, …)
+              — en and div of its channel descriptions stay assignable all the same (seeded C19-r5m2); the Lean driver ignores the route
     decoded   Parser().frame_chinfo_decode(<chinfo frame built by hand>, chan).data
     session   NxscopeHandler connected (virtual time) to the harness's reference device:
               nx.dev_channel_get(j).data / nx.dev.data
@@ -208,6 +210,11 @@ def _others_chan(j, n):
     return [dev.DeviceChannel(100 + k, 2 + k, 1, f"f{k}", en=bool(k & 1), div=k) for k in range(n) if k != j]
 
 
+def route_flags(route):
+    """`device` -> 3, `device.<f>` -> f: the flags of the Device that owns the channel record"""
+    return int(route.split(".")[1]) if "." in route else 3
+
+
 def build(kind, route, cv):
     """construct the real record through `route` from the constructor values cv"""
     dev = _dev()
@@ -217,12 +224,13 @@ def build(kind, route, cv):
             return Ctx(dev.DDeviceChannelData(chan, ty, vdim, name, en, div, mlen), None, "DDeviceChannelData(...)")
         if route == "devchan":
             return Ctx(dev.DeviceChannel(chan, ty, vdim, name, en, div, mlen).data, None, "DeviceChannel(...).data")
-        if route == "device":
+        if route.split(".")[0] == "device":
+            fl = route_flags(route)
             j = chan % 3
             n = j + 1 + (chan % 2)
             chans = _others_chan(j, n)
             chans.insert(j, dev.DeviceChannel(chan, ty, vdim, name, en, div, mlen))
-            d = dev.Device(n, 3, 0, chans)
+            d = dev.Device(n, fl, 0, chans)
 
             def lib(nm, v, d=d, j=j):
                 if nm == "en":
@@ -235,7 +243,7 @@ def build(kind, route, cv):
                     d.div_channels_update(cur)
                 else:
                     raise ValueError(nm)
-            return Ctx(d.channel_get(j).data, lib, f"Device({n}, 3, 0, [...]).channel_get({j}).data")
+            return Ctx(d.channel_get(j).data, lib, f"Device({n}, {fl}, 0, [...]).channel_get({j}).data")
         if route == "decoded":
             import struct
             from nxslib.proto.parse import Parser
@@ -373,11 +381,11 @@ def pyrepro(line, upto=None):
         j = val(t[4].split(",")[0])
         how = {"direct": f"rec = DDeviceChannelData({a})",
                "devchan": f"rec = DeviceChannel({a}).data",
-               "device": f"dev = Device(n, 3, 0, [... DeviceChannel({a}) at index j ...]); rec = dev.channel_get(j).data   # j = chan % 3",
+               "device": f"dev = Device(n, {route_flags(route)}, 0, [... DeviceChannel({a}) at index j ...]); rec = dev.channel_get(j).data   # j = chan % 3",
                "decoded": f"rec = Parser().frame_chinfo_decode(DParseFrame(EParseId.CHINFO, struct.pack('BBBBB<n>s', en, _type, vdim, div, "
                           f"mlen, name)), chan).data   # (chan, _type, vdim, name, en, div, mlen) = ({a})",
                "session": f"nx = NxscopeHandler(<link to a device whose channel {j} reports (chan, _type, vdim, name, en, div, mlen) = ({a})>, "
-                          f"Parser()); nx.connect(); rec = nx.dev_channel_get({j}).data"}[route]
+                          f"Parser()); nx.connect(); rec = nx.dev_channel_get({j}).data"}[route.split(".")[0]]
     else:
         how = {"direct": f"rec = DDeviceData({a})", "device": f"rec = Device({a}, [<chmax channels>]).data",
                "session": f"nx = NxscopeHandler(<link to a device reporting (chmax, flags, rxpadding) = ({a})>, Parser()); nx.connect(); "
@@ -392,7 +400,7 @@ def pyrepro(line, upto=None):
         nm, vt = (st[1:] if lib else st).split("=")
         nm = nval(nm)
         v = (f"rec.{nm}" if nm.isidentifier() else f"getattr(rec, {nm!r}, None)") if vt == "cur" else pyval(vt)
-        if lib and route == "device":
+        if lib and route.split(".")[0] == "device":
             out.append(f"dev.{'en' if nm == 'en' else 'div'}_channels_update([... {v} at index j ...])   # the library assigns rec.{nm}")
         elif lib and route == "session":
             out.append((f"nx.ch_{'enable' if val(vt) else 'disable'}({j})" if nm == "en" else f"nx.ch_divider({j}, {v})") +
@@ -435,7 +443,8 @@ class C19(Prop):
         dev = _dev()
         cls = dev.DDeviceChannelData if kind == "chan" else dev.DDeviceData
         fields = [f.name for f in dataclasses.fields(cls)]
-        odd = ["bogus", "__dict__", "__class__", "__setattr__", "__post_init__", "__eq__", "EN", "Div", "en_", "_en", "div2",
+        # (`en` / `div` are writable on a channel record only: on a device record they are names like any other)
+        odd = (["en", "div"] if kind == "dev" else []) + ["bogus", "__dict__", "__class__", "__setattr__", "__post_init__", "__eq__", "EN", "Div", "en_", "_en", "div2",
                "data", "_data", "chan_", "%656e20", "%20656e", "%656e00", "%c3a96e", "%-", "%6469762e", "enable",
                "divider", "type", "__initdone", "_initdone_"]
         return fields, odd
@@ -449,7 +458,7 @@ class C19(Prop):
                 pick = (lambda: rng.choice(P)) if wild else (lambda: rng.choice(["i0", "i1", "i7", "i3", "i255", "i2"]))
                 return [pick(), f"i{ty}", pick(), pick() if wild else sval(rng.choice(["ch", "", "név"])),
                         pick() if wild else rng.choice("TF"), pick(), pick()]
-            if route in ("devchan", "device"):
+            if route in ("devchan", "device") or route.startswith("device."):
                 chan = rng.choice(["i0", "i1", "i2", "i5", "i7", "i63", "i255"])
                 pick = (lambda: rng.choice(P)) if (wild and route == "devchan") else (lambda: rng.choice(self.INTS[:9]))
                 return [chan, f"i{ty}", pick(), sval(rng.choice(["ch", "", "név", "a b"])), rng.choice("TF"), pick(), pick()]
@@ -486,7 +495,7 @@ class C19(Prop):
                     # to every record, so application-level en / div assignments come last (see cases)
                     steps.append(f"!{nm}=" + (rng.choice("TF") if nm == "en" else f"i{rng.randrange(256)}"))
                     continue
-                if route == "device" and rng.random() < 0.35:
+                if route.split(".")[0] == "device" and rng.random() < 0.35:
                     steps.append(f"!{nm}={rng.choice(P)}")
                     continue
             elif r < 0.62:
@@ -542,12 +551,19 @@ class C19(Prop):
                    f"critical={'i1' if ty & 0x80 else 'i0'}", f"is_valid={'i1' if d else 'i0'}",
                    f"is_numerical={'o1.0' if d not in (0, 1, 18, 19) else 'o0.1'}", "type_res=o1.19", "_initdone=i1", "_initdone=o1.19"]
             yield self.line("chan", "direct", base, ";".join(st)), "chan-sweep-equal"
+            # 2b the record of a channel OWNED BY A DEVICE whose flags lack divider / ACK support (0, 2; also 1, 255, 128): en and div
+            # stay assignable — by the application and by the library — and store what was assigned
+            fl = [0, 2, 2, 0, 1, 255, 128, 0][ty % 8]
+            dv = rng.choice(["i1", "i1", "i255", "i7", "T", "o1.0", "i256"])
+            yield self.line("chan", f"device.{fl}", self.ctor(rng, "chan", "device", ty, wild=False),
+                            rng.choice([f"div={dv};en=T;div=i0;div=i9;chan=i3", f"en=T;div={dv};!div=i5;div=cur;mlen=N",
+                                        f"!div=i3;div={dv};en=F;!en=T;_type=i0", f"div={dv};@copy;div=i2;vdim=i0"])), "chan-nodiv-device"
         # 3 device record
         for fl in [0, 1, 2, 3, 255, 7, 128, 4, 2 ** 64 + 3] + [rng.randrange(256) for _ in range(16 if thorough else 3)]:
             for route in ("direct", "device"):
                 base = [f"i{rng.randrange(4)}", f"i{fl}", rng.choice(["i0", "i7", "i3", "i1"])]
                 yield self.line("dev", route, base, ""), "dev-dump"
-                for nm in dfields + (dodd if thorough else dodd[:4]):
+                for nm in dfields + (dodd if thorough else dodd[:6]):
                     k += 1
                     yield self.line("dev", route, base, f"{nm}={P[k % len(P)]}"), "dev-single"
                 yield self.line("dev", route, base, ";".join(f"{nm}=cur" for nm in dfields)), "dev-sweep-cur"
@@ -562,7 +578,7 @@ class C19(Prop):
         nh = 1500 if thorough else 500
         for i in range(nh):
             kind = "chan" if rng.random() < 0.7 else "dev"
-            route = rng.choice(["direct", "direct", "devchan", "device", "decoded"] if kind == "chan" else ["direct", "device"])
+            route = rng.choice(["direct", "direct", "devchan", "device", "decoded", "device.0", "device.2"] if kind == "chan" else ["direct", "device"])
             cv = self.ctor(rng, kind, route, wild=rng.random() < 0.6)
             yield self.line(kind, route, cv, self.history(rng, kind, route, rng.randrange(1, 10))), f"history-{kind}-{route}"
         # 5 copies first, then assignments
@@ -590,7 +606,7 @@ class C19(Prop):
         out = []
         for i in range(400):
             kind = "chan" if rng.random() < 0.7 else "dev"
-            route = rng.choice(["direct", "devchan", "device", "decoded"] if kind == "chan" else ["direct", "device"])
+            route = rng.choice(["direct", "devchan", "device", "decoded", "device.0", "device.2", "device.1"] if kind == "chan" else ["direct", "device"])
             cv = self.ctor(rng, kind, route, wild=rng.random() < 0.5)
             out.append((self.line(kind, route, cv, self.history(rng, kind, route, rng.randrange(1, 8))), "search"))
         return out
@@ -618,7 +634,8 @@ class C19(Prop):
 
     def _judge(self, line):
         kind, route, cv, cexc, obs = execute(line)
-        where = f"{'channel' if kind == 'chan' else 'device'} description {ROUTE_TEXT.get(route, route)} from ({line.split(' ')[4]})"
+        rtext = ROUTE_TEXT.get(route.split(".")[0], route) + (f" with flags {route_flags(route)}" if "." in route else "")
+        where = f"{'channel' if kind == 'chan' else 'device'} description {rtext} from ({line.split(' ')[4]})"
         if cexc is not None:
             return {"key": "construct", "what": f"{where}: construction / session raised {type(cexc).__name__}: {cexc}",
                     "expected": "a record", "observed": type(cexc).__name__}
@@ -733,17 +750,160 @@ print(json.dumps(out[:5]))
                             "expected": "an exception, record unchanged", "observed": json.dumps(b)[:300]})
         return out
 
+    # ---- order of the assignments ACROSS records, in fresh interpreters -------------------------------------------
+    # What a sealed record lets through must not depend on which record of the process was assigned to first (seeded C19-r5m1:
+    # the set of writable names resolved lazily on the first sealed assignment and cached on a class both records share).
+    # Every sequence runs in its own fresh interpreter, where its first step IS the first sealed assignment of the process.
+    # Records: dev / chan = Device(2, flags, 0, [DeviceChannel(0, ty, 1, "a"), DeviceChannel(1, 2, 1, "b")]).data / .channel_get(0).data,
+    # ddev / dchan = DDeviceData(2, flags, 0) / DDeviceChannelData(4, ty, 1, "d"), chan1 = the second channel's record;
+    # lib_en / lib_div = the library's own update (Device.en_channels_update / div_channels_update).  The script judges each
+    # step by the property alone: en / div of a channel record are stored, anything else raises and changes nothing.
+    ORDER_SCRIPT = r"""
+import json, sys
+from nxslib.dev import DDeviceData, DDeviceChannelData, DeviceChannel, Device
+spec = json.loads(sys.stdin.read())
+fl, ty = spec["flags"], spec["ty"]
+device = Device(2, fl, 0, [DeviceChannel(0, ty, 1, "a"), DeviceChannel(1, 2, 1, "b")])
+recs = {"dev": device.data, "chan": device.channel_get(0).data, "chan1": device.channel_get(1).data,
+        "ddev": DDeviceData(2, fl, 0), "dchan": DDeviceChannelData(4, ty, 1, "d")}
+bad = None
+done = []
+for rec, name, value in spec["steps"]:
+    done.append(f"{rec}.{name} = {value!r}")
+    if rec in ("lib_en", "lib_div"):
+        before = [dict(r.__dict__) for r in (recs["chan"], recs["chan1"])]
+        try:
+            if rec == "lib_en":
+                device.en_channels_update([value, not value])
+                got = device.channels_en
+                want = [value, not value]
+            else:
+                device.div_channels_update([value, value + 1])
+                got = device.channels_div
+                want = [value, value + 1]
+            if got != want:
+                bad = {"what": "the library's own update did not store the values", "expected": want, "observed": got}
+        except Exception as e:
+            bad = {"what": "the library's own update of en / div raised", "expected": "values stored", "observed": type(e).__name__ + ": " + str(e)}
+        if bad:
+            break
+        continue
+    r = recs[rec]
+    before = dict(r.__dict__)
+    try:
+        setattr(r, name, value)
+        raised = None
+    except Exception as e:
+        raised = type(e).__name__ + ": " + str(e)
+    after = dict(r.__dict__)
+    writable = rec in ("chan", "chan1", "dchan") and name in ("en", "div")
+    if writable:
+        if raised is not None:
+            bad = {"what": f"assigning {name} of a channel description raised", "expected": "assignment goes through", "observed": raised}
+        elif after.get(name, "absent") is not value:
+            bad = {"what": f"assigning {name} of a channel description did not store the value", "expected": repr(value),
+                   "observed": repr(after.get(name, "absent"))}
+        elif any(after.get(k) is not v for k, v in before.items() if k != name) or set(after) != set(before):
+            bad = {"what": f"assigning {name} of a channel description changed other attributes", "expected": "-", "observed": "-"}
+    else:
+        if raised is None:
+            bad = {"what": f"assigning {name} of a {'device' if rec in ('dev', 'ddev') else 'channel'} description did not raise",
+                   "expected": "an exception, record unchanged", "observed": f"no exception; {name} is now {after.get(name, 'absent')!r}"}
+        elif set(after) != set(before) or any(after.get(k) is not v for k, v in before.items()):
+            bad = {"what": f"assigning {name} raised but the record changed", "expected": "record unchanged", "observed": raised}
+    if bad:
+        break
+if bad:
+    bad["steps_run"] = done
+print(json.dumps(bad))
+"""
+
+    ORDERS = [
+        # the process's first sealed assignment hits a DEVICE record (rejected, fine); the channel records come afterwards
+        [["dev", "chmax", 1], ["chan", "en", True], ["chan", "div", 1], ["chan", "chan", 5], ["dev", "flags", 0], ["chan1", "div", 7]],
+        [["ddev", "flags", 0], ["dchan", "en", True], ["dchan", "div", 3], ["dchan", "name", "x"], ["chan", "en", True]],
+        [["dev", "rxpadding", 4], ["lib_en", "-", True], ["lib_div", "-", 5], ["chan", "div", 2], ["dev", "chmax", 0]],
+        [["dev", "en", True], ["chan", "div", 9], ["chan", "en", False], ["dev", "div", 1]],
+        # ... a CHANNEL record first (en / div, or a rejected identifying field), the device record afterwards
+        [["chan", "en", True], ["dev", "chmax", 1], ["dev", "en", True], ["dev", "div", 1], ["chan", "div", 3], ["ddev", "div", 0]],
+        [["chan", "chan", 5], ["dev", "flags", 0], ["chan", "en", True], ["chan", "div", 1], ["dchan", "div", 4], ["ddev", "en", False]],
+        [["lib_div", "-", 3], ["dev", "div_supported", False], ["dev", "div", 2], ["chan1", "en", True], ["chan1", "vdim", 2]],
+        [["dchan", "div", 1], ["ddev", "chmax", 9], ["ddev", "div", 1], ["dchan", "en", True], ["dchan", "_type", 0]],
+    ]
+
+    def order_spec(self, rng, i):
+        """(flags, type byte, steps): the fixed orders first, then random ones (a random first record, then a mix)"""
+        fl = [3, 0, 2, 1, 3, 2, 0, 255][i % 8]
+        ty = [10, 2, 0, 0x8a, 255, 18, 7, 1][i % 8] if i < 8 else rng.randrange(256)
+        if i < len(self.ORDERS):
+            return {"flags": fl, "ty": ty, "steps": self.ORDERS[i]}
+        idents = {"dev": ["chmax", "flags", "rxpadding", "div_supported", "ack_supported", "_initdone", "en", "div", "bogus"],
+                  "chan": ["chan", "_type", "vdim", "name", "mlen", "dtype", "critical", "is_valid", "_initdone", "en", "div", "en", "div"]}
+        steps = []
+        for _ in range(rng.randrange(3, 9)):
+            rec = rng.choice(["dev", "ddev", "chan", "chan1", "dchan", "chan", "lib_en", "lib_div"])
+            if rec == "lib_en":
+                steps.append([rec, "-", rng.random() < 0.5])
+            elif rec == "lib_div":
+                steps.append([rec, "-", rng.randrange(255)])
+            else:
+                nm = rng.choice(idents["dev" if rec in ("dev", "ddev") else "chan"])
+                v = rng.choice([True, False, 1, 0, 255]) if nm in ("en", "div") else rng.choice([0, 1, None, "x", True, 7])
+                steps.append([rec, nm, v])
+        return {"flags": fl, "ty": ty, "steps": steps}
+
+    def run_order(self, spec):
+        """run one sequence in a fresh interpreter; -> violation dict or None"""
+        import json
+        import subprocess
+        import common
+        env = dict(os.environ, PYTHONPATH=os.path.join(common.REPO, "src"), PYTHONDONTWRITEBYTECODE="1")
+        p = subprocess.run([sys.executable, "-c", self.ORDER_SCRIPT], input=json.dumps(spec), capture_output=True, text=True, env=env,
+                           timeout=120)
+        try:
+            bad = json.loads(p.stdout.strip().splitlines()[-1]) if p.returncode == 0 else {"what": "the sequence did not run", "expected": "-",
+                                                                                           "observed": p.stderr[-300:]}
+        except Exception:  # noqa: BLE001
+            bad = {"what": "the sequence did not run", "expected": "-", "observed": (p.stdout + p.stderr)[-300:]}
+        if not bad:
+            return None
+        last = (bad.get("steps_run") or ["?"])[-1]
+        key = "readonly" if "did not raise" in bad["what"] or "record changed" in bad["what"] else \
+            ("construct" if "did not run" in bad["what"] else "en-div-assignable")
+        return {"key": key, "case": "fresh interpreter: " + json.dumps(spec),
+                "what": f"in a fresh interpreter, with device = Device(2, {spec['flags']}, 0, [DeviceChannel(0, {spec['ty']}, 1, 'a'), DeviceChannel(1, 2, 1, 'b')]) "
+                        f"(dev = device.data, chan / chan1 = device.channel_get(0 / 1).data, ddev = DDeviceData(2, {spec['flags']}, 0), dchan = "
+                        f"DDeviceChannelData(4, {spec['ty']}, 1, 'd')), after the assignments {bad.get('steps_run', [])[:-1]} (rejected ones included): "
+                        f"`{last}`: {bad['what']}",
+                "expected": str(bad.get("expected")), "observed": str(bad.get("observed"))[:300]}
+
+    def assignment_orders(self, rng, tier):
+        out = []
+        n = 40 if tier == "thorough" else 14
+        for i in range(n):
+            v = self.run_order(self.order_spec(rng, i))
+            if v:
+                out.append(v)
+                if len(out) >= 3:
+                    break
+        return out, n
+
     def replay(self, obj):
+        import json
         case = obj.get("case", "")
         if case.startswith("python -O"):
             vs = self.optimized_interpreter()
             return vs[0] if vs else None
+        if case.startswith("fresh interpreter: "):
+            return self.run_order(json.loads(case[len("fresh interpreter: "):]))
         return super().replay(obj)
 
     def extra_checks(self, rng, tier, ev):
         v = self.optimized_interpreter()
         ev["coverage"]["interpreter_modes"] = ["default", "-O", "-OO"]
-        return v
+        w, n = self.assignment_orders(rng, tier)
+        ev["coverage"]["fresh_interpreter_assignment_orders"] = n
+        return v + w
 
 
 PROP = C19()
